@@ -45,7 +45,7 @@ def adversarial_policy(rng, nw):
 def scenarios(ck):
     rng = ck.rng
     n_random = ck.n(70, 1000)
-    n_adv = ck.n(90, 1500)
+    n_adv = ck.n(90, 1000)
     n_repeat = ck.n(25, 250)
     yield X.sanity_scenario()
     for i in range(n_random):
